@@ -80,6 +80,7 @@ mutant("C14-context-not-cleared", "src/rtflite/encoding/unified_encoder.py",
 mutant("C15-global-colour-state", "src/rtflite/services/color_service.py",
        "    @property\n    def _current_document_colors(self) -> Sequence[str] | None:\n        return _document_colors.get()\n\n    @_current_document_colors.setter\n    def _current_document_colors(self, value: Sequence[str] | None) -> None:\n        _document_colors.set(value)\n",
        "    _current_document_colors = None\n", ["C15", "C14"])
+# (equivalent: CR/LF inside hex data is ignored by RTF readers - expected "missed")
 mutant("C16-hex-wrap-odd", "src/rtflite/services/figure_service.py", "line_length = 80", "line_length = 79", ["C16"])
 mutant("C16-width-height-swapped", "src/rtflite/services/figure_service.py",
        "height = struct.unpack(\">H\", data[i + 5 : i + 7])[0]\n                    width = struct.unpack(\">H\", data[i + 7 : i + 9])[0]",
